@@ -66,9 +66,7 @@ def cache(func: _F) -> _F:
         template = self.registry.get(args)
         if template is None:
             _verif_point('load:miss', args)
-            template = func(self, *args, **kwargs)
-            _verif_point('load:created', args)
-            self.registry[args] = template
+            self.registry[args] = template = func(self, *args, **kwargs)
         return template
     return cast('_F', load)
 
